@@ -87,7 +87,7 @@ def check_stack(table, top, o, phase):
                 return f"entry {k}: {name!r} refers to {decl.cname(el[1])} but the inner entry is of {st[k - 1][2]}"
     if phase == 'packing' and len({x[0] for x in st}) != 1:
         return f"serializing: the entries carry different cursors {[x[0] for x in st]}"
-    if phase == 'unpacking' and any(a[0] < b[0] for a, b in zip(st, st[1:])) and not pktprops.has_feature(table, lambda k, x: k == 'move' or (k == 'class' and x.get('align'))):
+    if phase == 'unpacking' and any(a[0] < b[0] for a, b in zip(st, st[1:])) and not pktprops.has_feature(table, lambda k, x: k == 'move' or (k == 'class' and x.get('align')) or (k == 'body' and x[0] == 'seq' and x[6] not in (None, 1))):       # per-element alignment positions too: an element aligned beyond the input holds a read-to-end string that hands back the input's end
         return f"parsing: an inner field begins before the field that contains it {[x[0] for x in st]}"
     return None
 
